@@ -301,24 +301,39 @@ func (gme *GCPMultiEndpoint) UpdateMultiEndpoints(meOpts *GCPMultiEndpointOption
 	}
 
 	validPools := make(map[string]bool)
-	for _, meo := range meOpts.MultiEndpoints {
+	for name, meo := range meOpts.MultiEndpoints {
+		// Validate everything before changing anything.
+		if meo == nil || len(meo.Endpoints) == 0 {
+			return fmt.Errorf("MultiEndpoint %q: endpoints list cannot be empty", name)
+		}
 		for _, e := range meo.Endpoints {
 			validPools[e] = true
 		}
 	}
 
 	// Add missing pools.
+	var addedPools []string
 	for e := range validPools {
 		if _, ok := gme.pools[e]; !ok {
 			// This creates a ClientConn with the gRPC-GCP balancer managing connection pool.
 			conn, err := gme.dialFunc(context.Background(), e, gme.opts...)
 			if err != nil {
+				// Nothing else was changed yet: close the pools created by this call.
+				for _, ae := range addedPools {
+					mc := gme.pools[ae]
+					mc.stopMonitoring()
+					if cerr := mc.conn.Close(); cerr != nil {
+						gme.log.Errorf("error while closing the pool for %q endpoint: %v", ae, cerr)
+					}
+					delete(gme.pools, ae)
+				}
 				return err
 			}
 			if gme.log.V(FINE) {
 				gme.log.Infof("created new channel pool for %q endpoint.", e)
 			}
 			gme.pools[e] = newMonitoredConn(e, conn, gme)
+			addedPools = append(addedPools, e)
 		}
 	}
 
